@@ -219,6 +219,27 @@ def c08_case(ctx, rng, n_targets, kind, listener="none"):
                     if want and got != want: show_bad.append({"target": tpath, "stream": sname, "show": None if got is None else len(got), "wrote": len(want)})
                     if not want and got is not None: show_bad.append({"target": tpath, "stream": sname, "header_for_empty_log": True})
             if junk.strip(): show_bad.append({"output_before_first_header": junk[:80].decode("latin1")})
+            # filtered shows: exactly the selected non-empty logs, selection decided by the model of the filter rule (Model.Filter)
+            tnames = sorted(written)
+            combos = [["--stderr", "-t", tnames[0]], ["--stdout", "--stderr", "-t"] + tnames[:2], ["--stdout", "-c", "build"], ["--stderr", "-c", "nosuchcommand"],
+                      ["--stdout", "--stderr", "-c", "build", "-t", tnames[-1]]]
+            for flt in (combos if kind == "text" else combos[:2]):
+                def sel(flag):
+                    if flag not in flt: return None
+                    o = []
+                    for x in flt[flt.index(flag) + 1:]:
+                        if x.startswith("-"): break
+                        o.append(x)
+                    return o
+                tsel, csel = sel("-t"), sel("-c")
+                tasks = [(sname, tpath, "build") for tpath in tnames for sname in ("stdout", "stderr")]
+                flags = ctx.model.call("filter", True, "--stdout" in flt, "--stderr" in flt, tsel or [], csel or [], [[sn == "stdout", tp, c] for sn, tp, c in tasks])
+                rcf, _, _, rawf = vlib.monorail(rr.repo, "log", "show", *flt)
+                fblocks, fjunk = parse_blocks(rawf.stdout)
+                want_keys = {(sn + ".zst", tp, c): b"".join(d for d, _ in written[tp][sn]) for (sn, tp, c), f in zip(tasks, flags) if f and b"".join(d for d, _ in written[tp][sn])}
+                if rcf != 0 or set(fblocks) != set(want_keys) or any(fblocks[k] != v for k, v in want_keys.items() if k in fblocks) or fjunk.strip():
+                    show_bad.append({"filtered_show": flt, "rc": rcf, "printed": sorted("%s|%s|%s" % k for k in fblocks)[:8], "selected": sorted("%s|%s|%s" % k for k in want_keys)[:8]})
+                ctx.count("log_show_filtered")
         ok = not bad and not show_bad and rcl == 0
         mid = any(p >= 500 and not d.endswith(b"\n") and d for s in written.values() for ch in s.values() for d, p in ch)
         ctx.record(case, True, agree and not bad, ok, True,
@@ -252,6 +273,12 @@ def c15_case(ctx, rng, n_targets, kill_at, flt):
         for t in cfg["targets"][:2]:
             script["build|%s" % t["path"]]["chunks"] += [[1, b"working...".hex(), 700], [2, b"still going".hex(), 650]]
             written[t["path"]]["stdout"].append((b"working...", 700)); written[t["path"]]["stderr"].append((b"still going", 650))
+    if kill_at == "stalled":
+        # one task writes steadily for four seconds, so that output is streamed while the listener is suspended and after it is killed
+        t0p_ = cfg["targets"][0]["path"]
+        steady = [(b"steady line %02d of the long writer\n" % i, 100) for i in range(40)]
+        script["build|%s" % t0p_] = {"chunks": [[1, d.hex(), ms] for d, ms in steady]}
+        written[t0p_] = {"stdout": steady, "stderr": []}
     if rng.random() < 0.3: script["build|%s" % cfg["targets"][-1]["path"]]["exit"] = 3
     rr = runscen.RunRepo(ctx, cfg, commands=["build"])
     try:
@@ -271,6 +298,10 @@ def c15_case(ctx, rng, n_targets, kill_at, flt):
             time.sleep(kill_at); lst.kill()
         if kill_at == "handshake":
             time.sleep(0.3); lst.kill()
+        if kill_at == "stalled":
+            # the listener is suspended in mid-run (Ctrl-Z, a blocked pager), streamed output piles up unread in its socket, then it is
+            # killed: the kernel resets the connection instead of closing it, so the run's next write fails in a different way
+            time.sleep(0.7); lst.send_signal(signal.SIGSTOP); time.sleep(1.6); lst.kill()
         hung = False
         try: so, se = p.communicate(timeout=90)
         except subprocess.TimeoutExpired:
@@ -433,7 +464,7 @@ def run(ctx, scale, focus):
         for n, kind, l in lplan * scale: c08_case(ctx, random.Random(rng.getrandbits(32)), n, kind, l)
     elif focus == "C15":
         plan = [("never", ["--stdout", "--stderr"]), (0.25, ["--stdout", "--stderr"]), ("before", ["--stdout"]), (0.7, ["--stderr", "-t", "t00"]), (0.05, ["--stdout", "--stderr"]),
-                ("handshake", ["--stdout", "--stderr"]), ("never", ["--stdout", "--stderr", "-t", "@long"]), ("never", ["--stdout", "--stderr", "@tail"])]
+                ("handshake", ["--stdout", "--stderr"]), ("stalled", ["--stdout", "--stderr"]), ("never", ["--stdout", "--stderr", "-t", "@long"]), ("never", ["--stdout", "--stderr", "@tail"])]
         if not ctx.quick(): plan = plan * 10 + [(0.25, ["--stdout", "-t", "@long", "t00", "t01"]), ("never", ["--stderr", "-t"] + ["t%02d" % i for i in range(6)] + ["-c", "build", "lint", "test", "a-very-long-command-name-that-nobody-runs"])] * 3
         for kill_at, flt in plan * scale: c15_case(ctx, random.Random(rng.getrandbits(32)), rng.choice([4, 6]), kill_at, flt)
     else:
